@@ -223,11 +223,14 @@ def _strs_of(d):
         return [s for c in d["cols"] for s in c.get("strs", [])]
     if d["k"] == "cat":
         return list(d["cats"])
+    if d["k"] == "ser" and "strs" not in d:
+        return d["ix"].get("strs")
     return d.get("strs")
 
 
 def classify_pair(a, b):
-    """Input class of a distinctness violation: the kinds and WHICH part of the description differs."""
+    """Input class of a distinctness violation: the kinds and WHICH part of the description differs
+    (never the concrete cells)."""
     ka, kb = a["k"], b["k"]
     if ka != kb:
         return "Distinct:%s" % "~".join(sorted([ka, kb]))
@@ -241,48 +244,82 @@ def classify_pair(a, b):
         return "Distinct:mm:%s" % ("cells" if "cells" in diff else "dtype-or-shape")
     if k == "oa":
         if a["shape"] == b["shape"] and all(x["k"] == "str" for x in a["xs"] + b["xs"]) and _join(a["xs"]) == _join(b["xs"]):
-            return "Distinct:oa:equal-join"
+            return "Distinct:object-strings:equal-join"
         return "Distinct:oa:other"
     if k in ("ix", "ser", "ea", "df", "cat"):
         sa, sb = _strs_of(a), _strs_of(b)
-        rest = lambda d: {f: v for f, v in d.items() if f not in ("strs", "cols", "lay", "cats")}
-        if sa and sb and sa != sb and "-".join(sa) == "-".join(sb) and rest(a) == rest(b):
-            return "Distinct:%s:equal-join" % k
+        if sa and sb and sa != sb and "-".join(sa) == "-".join(sb):
+            return "Distinct:object-strings:equal-join"       # the same call site as for bare object arrays
         if k == "df" and [c["nm"] for c in a["cols"]] == [c["nm"] for c in b["cols"]] and a["ix"] == b["ix"]:
             key = lambda c: json.dumps({f: v for f, v in c.items() if f != "nm"}, sort_keys=True)
             if sorted(map(key, a["cols"])) == sorted(map(key, b["cols"])):
                 return "Distinct:df:columns-permuted"
         diff = sorted(f for f in set(a) | set(b) if f != "lay" and a.get(f) != b.get(f))
+        if k == "df" and diff == ["cols"] and len(a["cols"]) == len(b["cols"]):
+            diff = ["cols." + "+".join(sorted({f for ca, cb in zip(a["cols"], b["cols"]) for f in set(ca) | set(cb) if ca.get(f) != cb.get(f)}))]
+        if k == "ser" and diff == ["ix"] and a["ix"]["k"] == b["ix"]["k"]:
+            diff = ["ix." + "+".join(sorted(f for f in set(a["ix"]) | set(b["ix"]) if a["ix"].get(f) != b["ix"].get(f)))]
         return "Distinct:%s:%s" % (k, "+".join(diff))
-    if k in ("list", "tuple", "dict", "set", "frozenset", "dc", "par"):
-        return "Distinct:%s" % k
     return "Distinct:%s" % k
 
 
+def _order_site(a, b):
+    """Kind of the innermost container whose construction order differs between two records of one class."""
+    if a == b or not isinstance(a, dict) or not isinstance(b, dict) or a.get("k") != b.get("k"):
+        return None
+    for f in ("xs", "zs", "kv"):
+        if f in a and a[f] != b[f] and len(a[f]) == len(b[f]):
+            if a["k"] in ("set", "frozenset", "dict", "par") and f != "zs" and [TV.canon(x) for x in a[f]] != [TV.canon(x) for x in b[f]]:
+                return a["k"]
+            for x, y in zip(a[f], b[f]):
+                xs, ys = (x, y) if isinstance(x, dict) else (x[1], y[1])
+                kxs, kys = (None, None) if isinstance(x, dict) else (x[0], y[0])
+                for p, q in ((kxs, kys), (xs, ys)):
+                    r = _order_site(p, q) if p is not None else None
+                    if r:
+                        return r
+    return None
+
+
 def classify_det(clause, first, this):
+    """Input class of a determinism violation.  The route is part of the signature only where it names the
+    root cause (a copy that changes the memory layout / block structure); for unordered containers every route
+    is the same root cause (iteration order leaks into the token)."""
     k = this["k"]
-    feat = []
     if TV.canon(first) != TV.canon(this):
         raise MachineryError("determinism compared two different classes: %r %r" % (first, this))
-    if first != this:
-        feat.append("other-insertion-order")
-    if "lay" in this:
-        feat.append(this["lay"])
-    if clause == "DetAcrossInterpreters" and first != this:
-        feat = [f for f in feat if f != "other-insertion-order"] + ["other-insertion-order"]
-    return "%s:%s%s" % (clause, k, (":" + "+".join(feat)) if feat else "")
+    site = _order_site(first, this)
+    pre = "DetAcrossInterpreters" if clause == "DetAcrossInterpreters" else "Det"
+    if site:
+        return "%s:%s:construction-order" % (pre, site)
+    if k in ("set", "frozenset") or (k in ("list", "tuple", "dict") and _has_kind(this, ("set", "frozenset"))):
+        return "%s:%s:iteration-order" % (pre, "frozenset" if _has_kind(this, ("frozenset",)) else "set")
+    if k == "nd":
+        return "%s:nd:%s:%s" % (pre, this["lay"], clause.replace("Det_", ""))
+    if k == "df":
+        return "%s:df:block-structure:%s" % (pre, clause.replace("Det_", ""))
+    return "%s:%s" % (clause, k)
+
+
+def _has_kind(d, kinds):
+    if isinstance(d, dict):
+        return d.get("k") in kinds or any(_has_kind(v, kinds) for v in d.values())
+    if isinstance(d, list):
+        return any(_has_kind(v, kinds) for v in d)
+    return False
 
 
 def judge(ctx, cases, events, info, rejects, guard=True):
     """Turn TLC's rejections into violations (after the reference guard).  Returns the number reported."""
     byid = {e["id"]: e for e in events}
-    first_tok, first_key = {}, {}
+    first_tok, first_key, first_plain = {}, {}, {}
     for e in events:
         if e["raised"]:
             continue
         first_tok.setdefault(e["tok"], e["id"])
-        fk = (e["det"], 0 if e["plain"] else e["proc"] + 1)
-        first_key.setdefault(fk, e["id"])
+        first_key.setdefault((e["det"], e["proc"]), e["id"])
+        if e["plain"]:
+            first_plain.setdefault(e["det"], e["id"])
     n = 0
     for eid in sorted(rejects, key=lambda x: int(x.rsplit("e", 1)[1])):
         e, inf = byid[eid], info[eid]
@@ -300,8 +337,7 @@ def judge(ctx, cases, events, info, rejects, guard=True):
                 what = "observably different values share a token: %s vs %s" % (json.dumps(other["v"]), json.dumps(this))
                 rep = {"kind": "distinct", "a": other["v"], "b": this, "how_b": inf["how"], "proc": inf["proc"]}
             else:
-                fk = (e["det"], 0 if e["plain"] else e["proc"] + 1)
-                fid = first_key[fk]
+                fid = first_plain[e["det"]] if clause == "DetAcrossInterpreters" else first_key[(e["det"], e["proc"])]
                 first = cases[info[fid]["idx"]]["v"]
                 if guard and not TV.py_equal(TV.build(this), TV.build(first)):
                     raise MachineryError("Eqv guard: TLA+ equates %r and %r, Python finds them different" % (this, first))
